@@ -250,6 +250,20 @@ def check_rle(vals, num):
             flag('create_rle_differs', 'create_rle(%s) for %r gives runs %r, %d values %r; add() gives runs %r'
                  % (fname, vals, got[0], got[1], got[2], canon), form=fname.split('(')[0])
 
+    # the optional unary function "to convert all values with": an encoding built with one gives back the converted values - all of them
+    fn = (lambda x: 0.5 * x + 0.25) if isf else (lambda x: 3 * x + 7)
+    conv = [fn(v) for v in vals]
+    for fname, build in (('RLE(fn).add', lambda: [r for r in [Rle.RLE(fn)] if [r.add(v) for v in vals] is not None][0]),
+                         ('create_rle(values, fn)', lambda: Rle.create_rle(list(vals), fn))):
+        ok, got = _call(lambda: (lambda r: (r.num_values(), [r.value(i) for i in range(n)], r.first() if n else None, r.last() if n else None))(build()))
+        ctol = (n + 2) * EPS * max([abs(v) for v in conv] or [0.0]) if isf else 0
+        if not ok:
+            if not (isinstance(got, AssertionError) and zero_runs):
+                flag('rle_function_raise', '%s raised %s' % (fname, _exc(got)), exc=type(got).__name__)
+        elif got[0] != n or len(got[1]) != n or not all(abs(a - b) <= ctol for a, b in zip(got[1], conv)) \
+                or (n and not (abs(got[2] - conv[0]) <= ctol and abs(got[3] - conv[-1]) <= ctol)):
+            flag('rle_function_values', '%s for %r: %d values %r (first %r, last %r), converted values are %r' % (fname, vals, got[0], got[1], got[2], got[3], conv))
+
     # largest stored value not exceeding a query, ascending histories
     if n and all(a <= b for a, b in zip(vals, vals[1:])):
         d = FLT_DELTA if isf else 1
